@@ -775,7 +775,15 @@ func (st *state) applyDefaults(instancep reflect.Value, schema *Schema) (err err
 						if err := st.applyDefaults(lvalue, subschema); err != nil {
 							return err
 						}
-						setMapIndex(mapKey(instance, prop), lvalue.Elem())
+						// Keep the container only if it received a default: the element
+						// type of a typed map may be unable to hold the nested ones.
+						filled := lvalue.Elem()
+						if filled.Kind() == reflect.Interface {
+							filled = filled.Elem()
+						}
+						if filled.Kind() != reflect.Map || filled.Len() > 0 {
+							setMapIndex(mapKey(instance, prop), lvalue.Elem())
+						}
 					}
 				}
 			case reflect.Struct:
